@@ -27,7 +27,7 @@ func verifSortSlice(x any, less func(i, j int) bool) {
 	}
 }
 
-var verifPreset = []string{"preset_a", "preset_b", "preset_c", "preset_d", "preset_e", "preset_f"}
+var verifPreset = []string{"preset_a", "preset_b", "preset_c", "preset_d", "preset_e", "preset_f", "preset_g", "preset_h", "preset_i", "preset_j"}
 
 // verifAddOne adds one activity whose Go type is chosen by the solver among `types` alternatives
 func verifAddOne(pb *ProcessBuilder, types int, pos int) string {
